@@ -214,6 +214,33 @@ func c15KeyCheck(c c15Key) (fs []rep.Finding) {
 			fs = append(fs, rep.F("address-not-recovered|"+api, fmt.Sprintf("Addresses() = %v", ad)))
 		}
 	}
+	// a constructor must hand out a fresh script every time: extend / scribble over what it
+	// returned and ask again
+	again := func(api string, mk func() (*bscript.Script, error)) {
+		s1, err := mk()
+		if err != nil {
+			return
+		}
+		_ = s1.AppendOpcodes(bscript.OpRETURN, bscript.OpDROP)
+		for i := range *s1 {
+			(*s1)[i] ^= 0xff
+		}
+		s2, err := mk()
+		chk(api+"/second-call", s2, err)
+	}
+	again("NewP2PKHFromPubKeyHash", func() (*bscript.Script, error) { return bscript.NewP2PKHFromPubKeyHash(hash) })
+	again("NewP2PKHFromPubKeyHashStr", func() (*bscript.Script, error) { return bscript.NewP2PKHFromPubKeyHashStr(hex.EncodeToString(hash)) })
+	again("NewP2PKHFromAddress", func() (*bscript.Script, error) { return bscript.NewP2PKHFromAddress(wantAddr) })
+	again("PayToAddress", func() (*bscript.Script, error) {
+		tx := bt.NewTx()
+		if err := tx.PayToAddress(wantAddr, 1); err != nil {
+			return nil, err
+		}
+		return tx.Outputs[0].LockingScript, nil
+	})
+	if pub != nil {
+		again("NewP2PKHFromPubKeyBytes", func() (*bscript.Script, error) { return bscript.NewP2PKHFromPubKeyBytes(pub) })
+	}
 	s, err := bscript.NewP2PKHFromPubKeyHash(hash)
 	chk("NewP2PKHFromPubKeyHash", s, err)
 	s, err = bscript.NewP2PKHFromPubKeyHashStr(hex.EncodeToString(hash))
